@@ -56,27 +56,50 @@ impl<R: BufRead> Decoder<R> {
     pub fn read_line(&mut self) -> IoResult<Option<&str>> {
         self.read_buf.clear();
 
-        if self.inner.read_until(b'\n', &mut self.read_buf)? == 0 {
-            return Ok(None);
-        }
+        // In UTF-16 a byte b'\n' ends the line only if it is a code unit of
+        // its own, i.e. if the other byte of its unit is b'\0'. Otherwise it
+        // is part of another character and the line goes on.
+        while self.inner.read_until(b'\n', &mut self.read_buf)? > 0
+            && self.read_buf.ends_with(b"\n")
+        {
+            let len = self.read_buf.len();
 
-        // Reading up to b'\n' will miss the final b'\0' for an UTF-16LE encoded
-        // string so we need to read an additional byte.
-        if self.encoding == Encoding::Utf16LE && self.read_buf.ends_with(b"\n") {
-            loop {
-                match self.inner.fill_buf() {
-                    Ok(&[byte, ..]) => {
-                        self.read_buf.push(byte);
-                        self.inner.consume(1);
-
+            match self.encoding {
+                Encoding::Utf8 => break,
+                Encoding::Utf16BE => {
+                    if len % 2 == 0 && self.read_buf[len - 2] == 0 {
                         break;
                     }
-                    // The stream ended right after the b'\n'
-                    Ok(_) => break,
-                    Err(ref err) if err.kind() == ErrorKind::Interrupted => {}
-                    Err(err) => return Err(err),
+                }
+                // The b'\n' is the high byte of its unit
+                Encoding::Utf16LE if len % 2 == 0 => {}
+                Encoding::Utf16LE => {
+                    // Reading up to b'\n' will miss the high byte of the unit
+                    // so we need to read an additional byte.
+                    let high = loop {
+                        match self.inner.fill_buf() {
+                            Ok(&[byte, ..]) => {
+                                self.read_buf.push(byte);
+                                self.inner.consume(1);
+
+                                break Some(byte);
+                            }
+                            // The stream ended right after the b'\n'
+                            Ok(_) => break None,
+                            Err(ref err) if err.kind() == ErrorKind::Interrupted => {}
+                            Err(err) => return Err(err),
+                        }
+                    };
+
+                    if matches!(high, Some(0) | None) {
+                        break;
+                    }
                 }
             }
+        }
+
+        if self.read_buf.is_empty() {
+            return Ok(None);
         }
 
         Ok(Some(self.curr_line()))
